@@ -105,6 +105,21 @@ fn real_main() -> i32 {
                 let r = run_executable(exe, stdin.as_bytes(), &[], 2_000_000);
                 println!("stdout: {:?}", String::from_utf8_lossy(&r.stdout));
                 println!("end: {:?} after {} steps", r.end, r.steps);
+                if let Analyzed::Executable(exe2, _) = analyze_executable(&session, &path) {
+                    match lower(exe2) {
+                        | Lowered::Ok(b) => {
+                            let s = zyverif::sps::run(&b.sps_low, stdin.as_bytes(), 50_000_000);
+                            println!("sps   : {:?} stdout {:?} after {} steps", s.end, String::from_utf8_lossy(&s.stdout), s.steps);
+                            let mut st = zyverif::engine::Stats::new();
+                            match zyverif::props::c18::check_backend(&b, &|v| v, &mut st) {
+                                | Ok(()) => println!("backend: valid"),
+                                | Err(f) => println!("backend: {} — {}", f.signature, f.observed),
+                            }
+                        }
+                        | Lowered::Refused(w) => println!("lowering refused: {w}"),
+                        | Lowered::Panic(p) => println!("lowering PANIC {}", p.describe()),
+                    }
+                }
             }
             | Analyzed::AcceptedOther(front, why) => println!("verdict: {:?}; not executable: {why}", front.verdict),
             | Analyzed::NotAccepted(front) => {
